@@ -208,6 +208,9 @@ func H_C05_exit_Q() {
 	if math.LegacyNewDecFromInt(balance).GT(exact) {
 		nd.Tag("balance-rounded-up")
 	}
+	if av0.TotalDelegationSharesWithDenom(Denoms[0]).TruncateInt().IsZero() {
+		nd.Tag("tds-below-one") // GetDelegationSharesFromTokens prices shares 1:1 when the validator's delegator shares truncate to zero
+	}
 	ms := keeper.NewMsgServerImpl(e.K)
 	var err error
 	nd.Reach(id)
